@@ -26,34 +26,59 @@ MOD = "corankco.algorithms.copeland.copeland"
 _RT = {}
 
 
-def _eval_fill(proj, f, matrix, n):
-    """The real pair counter (whatever helpers / numpy idioms it uses) evaluated on a concrete cost cube. Returns
-    (scores, results) as python lists, or raises AnalysisError on a construct the evaluator does not model."""
-    from ..engines.instances import Runtime
-    from ..engines.stdlib import install
+def _eval_fill(proj, f, matrix, n, want_consensus=False):
+    """The real Copeland entry point on a real Dataset of n singleton elements (ids = names) with the cost-matrix builder
+    replaced by the given cube: the per-element scores and [victories, equalities, defeats] are read from the features
+    of the returned Consensus - whatever private routine computes them, however it is written.
+    Returns ((scores, results), "") or (None, reason)."""
+    from .datamodel import World
     from ..engines.npmodel import Cube
     from ..engines.abseval import Vec, Mat, AbsRaise, IndexOut
-    if id(proj) not in _RT:
+    key = id(proj)
+    if key not in _RT:
         _RT.clear()
-        _RT[id(proj)] = install(Runtime(proj))
-    rt = _RT[id(proj)]
-    rt.max_steps = 3000000
+        w = World(proj)
+        w.rt.max_steps = 6000000
+        w.rt.funcs["print"] = lambda ev, call: None
+        SS = proj.cls("corankco.scoringscheme", "ScoringScheme")
+        _RT[key] = (w, w.rt.new(SS, [[[0., 1., 1., 0., 1., 1.], [1., 1., 0., 1., 1., 0.]]], {}), {})
+    w, sch, datasets = _RT[key]
+    if n not in datasets:
+        datasets[n] = w.dataset([[{i} for i in range(n)]])
+    ds = datasets[n]
     cube = Cube([[list(c) for c in row] for row in matrix])
     cube.as_matrix = True
     cls = proj.cls(MOD, "CopelandMethod")
+    pba = proj.cls("corankco.algorithms.pairwisebasedalgorithm", "PairwiseBasedAlgorithm")
+    q = proj.method(pba, "pairwise_cost_matrix").qualname
+    w.rt.overrides[q] = lambda args, kw: cube
     try:
-        ret = rt.call_static(cls, "_fill_dicts_copeland", cube)
+        alg = w.rt.new(cls, [], {})
+        c = w.rt.call_method(alg, "compute_consensus_rankings", ds, sch, True)
     except Unsupported as exc:
-        raise AnalysisError(f"{f.qualname}: unsupported construct at line {getattr(exc.node, 'lineno', '?')}: {exc}")
+        raise AnalysisError(f"CopelandMethod: unsupported construct at line {getattr(exc.node, 'lineno', '?')}: {exc}")
     except (AbsRaise, IndexOut) as exc:
         return None, f"raises {exc}"
-    if not (isinstance(ret, tuple) and len(ret) == 2):
-        return None, f"returns {ret!r}, expected (scores, results)"
-    sc, rs = ret
-    sc = list(sc.vals) if isinstance(sc, Vec) else (list(sc) if isinstance(sc, list) else None)
-    rs = [list(r) for r in rs.rows] if isinstance(rs, Mat) else ([list(r) for r in rs] if isinstance(rs, list) else None)
-    if sc is None or rs is None:
-        return None, f"returns {ret!r}, expected (scores array, results array)"
+    finally:
+        w.rt.overrides.pop(q, None)
+    sc_map = vi_map = None
+    for k, v in (c.attrs.get("_att") or {}).items():
+        if getattr(k, "member", "") == "COPELAND_SCORES":
+            sc_map = v
+        if getattr(k, "member", "") == "COPELAND_VICTORIES":
+            vi_map = v
+    if not isinstance(sc_map, dict) or not isinstance(vi_map, dict):
+        return None, "the consensus carries no Copeland scores / victories"
+    try:
+        sc = [sc_map[e] for e in sorted(sc_map, key=lambda e: e.attrs["_value"])]
+        rs = [list(vi_map[e].vals) if isinstance(vi_map[e], Vec) else list(vi_map[e])
+              for e in sorted(vi_map, key=lambda e: e.attrs["_value"])]
+    except Exception as exc:    # noqa
+        return None, f"features not indexed by the elements: {exc!r}"
+    if len(sc) != n or len(rs) != n:
+        return None, f"{len(sc)} scores / {len(rs)} count triples for {n} elements"
+    if want_consensus:
+        return ((sc, rs), c, ds, sch), ""
     return (sc, rs), ""
 
 
@@ -83,8 +108,8 @@ def run(ctx) -> Result:
     res = Result("C13")
     proj = ctx.proj
     cls = proj.cls(MOD, "CopelandMethod")
-    f = proj.method(cls, "_fill_dicts_copeland")
     comp = proj.method(cls, "compute_consensus_rankings")
+    f = proj.lookup_method(cls, "_fill_dicts_copeland") or comp      # today's private counter (location of reports only)
     res.saw(f, comp)
     res.rule("O1", "victory / equality / defeat table of the pair counter over the order types of (before, after)", 3)
     res.rule("O2", "pair coverage and independence from the tie slot", 2)
@@ -192,7 +217,9 @@ def _check_o4(res: Result, proj, cls, comp, fill):
         seen["fill"].append(list(args))
         return (Vec([2.0, 1.0, 0.0]), Mat([[2, 0, 0], [1, 0, 1], [0, 0, 2]]))
     w.rt.overrides[proj.method(pba, "pairwise_cost_matrix").qualname] = pcm
-    w.rt.overrides[fill.qualname] = fill_
+    has_counter = fill is not comp
+    if has_counter:
+        w.rt.overrides[fill.qualname] = fill_
     st, c = w.safe("compute_consensus_rankings", w.rt.call_method, alg, "compute_consensus_rankings", ds, sch, True)
     w.rt.overrides.clear()
     good = st == "ok" and len(seen["pcm"]) == 1
@@ -207,75 +234,53 @@ def _check_o4(res: Result, proj, cls, comp, fill):
         detail = f"cost matrix built from {args[:1]!r} / scheme is the caller's: {len(args) > 1 and args[1] is sch} / weights {wts!r}"
     res.check(good, "O4", "compute_consensus_rankings:cost-matrix-args", comp.loc(),
               ok_detail="pairwise_cost_matrix(dataset positions, scoring_scheme), unit weights", bad_detail=detail)
-    good = st == "ok" and len(seen["fill"]) == 1 and len(seen["fill"][0]) >= 1 and seen["fill"][0][-1] is marker
+    good = (st == "ok" and len(seen["fill"]) == 1 and len(seen["fill"][0]) >= 1 and seen["fill"][0][-1] is marker) \
+        if has_counter else st == "ok"
     res.check(good, "O4", "compute_consensus_rankings:counter-input", comp.loc(),
               ok_detail="the pair counter receives the cost matrix just built",
               bad_detail="the pair counter does not receive the cost matrix built from the caller's dataset")
 
 
-def _check_ordering(res: Result, proj, comp, prof: List[float]):
+def _cube_for_scores(prof: List[float]):
+    """A cost cube over len(prof) elements whose pairwise outcomes order the elements like `prof` (weakly): x beats y iff
+    prof[x] > prof[y], they draw iff equal. The resulting Copeland scores are ordered like prof."""
     n = len(prof)
-    elems = [f"e{i}" for i in range(n)]
-    results_np = [[i, 10 + i, 20 + i] for i in range(n)]
-    ds, sch = comp.param_names[1], comp.param_names[2]
-    captured = {}
+    m = [[[0.0, 0.0, 0.0] for _ in range(n)] for _ in range(n)]
+    for i in range(n):
+        for j in range(n):
+            if i != j:
+                b, a = (0.0, 1.0) if prof[i] > prof[j] else ((1.0, 0.0) if prof[i] < prof[j] else (1.0, 1.0))
+                m[i][j] = [b, a, 9.0]
+    return m
 
-    def argsort(ev, call):
-        arr = ev.ev(call.args[0])
-        if not isinstance(arr, list):
-            raise Unsupported("argsort of abstract", call)
-        return sorted(range(len(arr)), key=lambda i: arr[i])
 
-    def fill(ev, call):
-        return (list(prof), [list(r) for r in results_np])
-
-    def consensus(ev, call):
-        captured["args"] = [ev.ev(a) for a in call.args]
-        captured["kw"] = {k.arg: ev.ev(k.value) for k in call.keywords}
-        return "CONSENSUS"
-
-    def ranking(ev, call):
-        return ("Ranking", ev.ev(call.args[0]))
-
-    env = {ds: Sym("DATASET"), sch: Sym("SCHEME"), "self": Sym("SELF"),
-           ds + ".mapping_id_elem": {i: elems[i] for i in range(n)}}
-    funcs = {"argsort": argsort, "._fill_dicts_copeland": fill, "Consensus": consensus, "Ranking": ranking,
-             ".pairwise_cost_matrix": lambda ev, call: Sym("COSTS"),
-             ".get_positions": lambda ev, call: Sym("POS"),
-             ".get_full_name": lambda ev, call: "NAME"}
-    evl = Evaluator(env, funcs)
-    evl.attr_fallback = lambda d: d if d.startswith("ConsensusFeature.") else None
+def _check_ordering(res: Result, proj, comp, prof: List[float]):
+    """The real entry point with the cost table scripted so that the elements' Copeland scores are ordered like `prof`:
+    the consensus groups the elements by decreasing score (equal scores together, last group included) and the features
+    give every element its own score and counts; the Consensus carries the caller's dataset and scheme."""
+    n = len(prof)
+    m = _cube_for_scores(prof)
     key = f"compute_consensus_rankings:scores={prof}"
-    try:
-        ret = evl.run(comp.body_without_docstring())
-    except Unsupported as exc:
-        raise AnalysisError(f"{comp.qualname}: unsupported construct at line {getattr(exc.node, 'lineno', '?')}: {exc}")
-    if ret != "CONSENSUS" or "args" not in captured:
-        res.bad("O3", key, comp.loc(), f"does not return a Consensus (returned {ret!r})")
+    got, err = _eval_fill(proj, comp, m, n, want_consensus=True)
+    if got is None:
+        res.bad("O3", key, comp.loc(), err)
         return
-    kw = dict(captured["kw"])
-    args = captured["args"]
-    names = ["consensus_rankings", "dataset", "scoring_scheme", "att"]
-    for i, a in enumerate(args):
-        kw[names[i]] = a
-    # expected ranking: groups by decreasing score
+    (sc, rs), cons, ds, sch = got
+    es, er = _expected(m, n)
     exp = []
-    for sc_ in sorted(set(prof), reverse=True):
-        exp.append({elems[i] for i in range(n) if prof[i] == sc_})
-    cr = kw.get("consensus_rankings")
-    ok_rank = isinstance(cr, list) and len(cr) == 1 and cr[0] == ("Ranking", exp)
-    att = kw.get("att") or {}
-    exp_scores = {elems[i]: prof[i] for i in range(n)}
-    exp_vict = {elems[i]: results_np[i] for i in range(n)}
-    ok_feat = att.get("ConsensusFeature.COPELAND_SCORES") == exp_scores and \
-        att.get("ConsensusFeature.COPELAND_VICTORIES") == exp_vict
-    ok_ctx = kw.get("dataset") == Sym("DATASET") and kw.get("scoring_scheme") == Sym("SCHEME")
+    for v in sorted(set(es), reverse=True):
+        exp.append({i for i in range(n) if es[i] == v})
+    rks = cons.attrs.get("_consensus_rankings")
+    cr = [[{e.attrs["_value"] for e in b} for b in r.attrs["_buckets"]] for r in rks] if isinstance(rks, list) else None
+    ok_rank = cr == [exp]
+    ok_feat = _same((sc, rs), es, er)
+    ok_ctx = cons.attrs.get("_dataset") is ds and cons.attrs.get("_scoring_scheme") is sch
     detail = ""
     if not ok_rank:
-        detail = f"ranking {cr!r}, expected one ranking {exp!r}"
+        detail = f"elements with scores {[str(x) for x in es]}: ranking {cr!r}, expected one ranking {exp!r}"
     elif not ok_feat:
-        detail = f"feature dictionaries {att!r} differ from the counters"
+        detail = f"feature dictionaries give scores {sc} / counts {rs}, the pairwise outcomes give {[str(x) for x in es]} / {er}"
     elif not ok_ctx:
-        detail = f"Consensus built with dataset={kw.get('dataset')!r} scheme={kw.get('scoring_scheme')!r}"
+        detail = "the Consensus does not carry the caller's dataset / scoring scheme"
     res.check(ok_rank and ok_feat and ok_ctx, "O3", key, comp.loc(),
-              ok_detail=f"ranking {exp!r}; features keyed by the same id map", bad_detail=detail)
+              ok_detail=f"ranking {exp!r}; features keyed by the elements", bad_detail=detail)
